@@ -1,4 +1,4 @@
-CONSTANTS Alphabet = {"(", ")", "|", ";", " ", "\n", "1", ".", "-", "e", "a"} MaxLen = 5
+CONSTANTS Alphabet <- SmallAlphabet MaxLen = 5
 INIT Init
 NEXT Next
 INVARIANT Emitted
